@@ -392,7 +392,7 @@ func runC16(r *Run) int {
 	for _, f := range old {
 		os.Remove(f)
 	}
-	monBin, _ := os.Executable()
+	monBin := childBinary()
 	type cfg struct{ procs, G, ops int }
 	cfgs := []cfg{{2, 8, 6000}, {4, 32, 2500}, {16, 64, 1500}}
 	maxRounds := r.Pick(6, 24)
@@ -520,7 +520,7 @@ func runC16(r *Run) int {
 }
 
 func replayC16(r *Run, c Case) {
-	monBin, _ := os.Executable()
+	monBin := childBinary()
 	cmd := exec.Command(monBin, "c16child", fmt.Sprint(r.Seed), c.Args["round"], c.Args["goroutines"], c.Args["ops"])
 	cmd.Env = append(os.Environ(), "GOMAXPROCS="+c.Args["gomaxprocs"], "GORACE=halt_on_error=0 exitcode=0 log_path="+filepath.Join(r.OutDir, "race-replay"))
 	out, err := cmd.CombinedOutput()
